@@ -187,7 +187,32 @@ def check_arms(prog, fv, r):
             r.fail(fv.name, "no-echo-test:" + a, "the %s arm does not exclude paths learned from the neighbour itself" % a, fv.loc())
 
 
+def check_drain_order(prog, r):
+    """drain_messages must put every withdrawal on the wire before any announcement of the same flush: the maps are
+    keyed by recycled ids, so one prefix can be pending as a withdrawal (old id) and as an announcement (new id)."""
+    fv = view(prog, prog.one(r"rustybgpd::peer_tx::PendingTx::drain_messages"))
+    r.analysed(fv.name)
+    un = [b for b, si, s in fv.aggregates(re.compile(r"rustybgp_packet::bgp::Update"), "Unreach")]
+    re_ = [b for b, si, s in fv.aggregates(re.compile(r"rustybgp_packet::bgp::Update"), "Reach")]
+    if not un or not re_:
+        r.unanalysable("drain_messages: Update::Unreach x%d, Update::Reach x%d constructions" % (len(un), len(re_)), fv.loc())
+        return
+    late = [u for u in un if any(u in fv.reach_after(x) or u == x for x in re_)]
+    if late:
+        r.fail(fv.name, "withdrawals-after-announcements", "drain_messages can emit an Update::Unreach (line %d) after an Update::Reach of the same flush: a prefix pending as a withdrawal under its old "
+               "destination id and as an announcement under a new one ends up withdrawn at the neighbour" % fv.line(late[0]), fv.loc(late[0]))
+    else:
+        r.ok("drain_messages: all withdrawals are emitted before the first announcement")
+    # the End-of-RIB marker closes the flush
+    eor = [b for b, t in fv.calls(re.compile(r"rustybgp_packet::bgp::Message::eor$"))]
+    if eor and any(x in fv.reach_after(e) for e in eor for x in un + re_):
+        r.fail(fv.name, "eor-before-updates", "End-of-RIB can be emitted before pending updates of the same flush", fv.loc(eor[0]))
+    elif eor:
+        r.ok("drain_messages: End-of-RIB is emitted last")
+
+
 def check_pending(prog, r):
+    check_drain_order(prog, r)
     reach_fixed = True
     # Only `reach` cancelling a pending `unreach` is a hazard: a pending reach for P under id k means P is still
     # live, so no other prefix can own k when an unreach(k, ..) arrives (events of one shard are ordered).
